@@ -64,7 +64,7 @@ REWRITES = {
     "static_str_const": ("re", r"(const\s+\w+\s*:\s*)&str", r"\1&'static str", "Verus treats consts as functions"),
     # per-site
     "as_ref_on_mut_reference": ("re", r"(\b\w+)\.as_ref\(\)", r"Reference::as_ref(&*\1)", "x.as_ref() on &mut Reference<T> resolves to the std blanket impl `<&mut T as AsRef<U>>::as_ref`, whose body is exactly this call"),
-    "usize_to_isize_expect": ("re", r"(let \w+: isize = )([\w\.]+)\.try_into\(\)\.expect\((\"[^\"]*\")\);", r"\1usize_to_isize_expect(\2, \3);", "TryFrom<usize> for isize has no vstd spec; shim = `x.try_into().expect(msg)`, panics iff x > isize::MAX"),
+    "usize_to_isize_expect": ("re", r"(let \w+: isize = )([\w\.\(\)&]+)\.try_into\(\)\.expect\((\"[^\"]*\")\);", r"\1usize_to_isize_expect(\2, \3);", "TryFrom<usize> for isize has no vstd spec; shim = `x.try_into().expect(msg)`, panics iff x > isize::MAX"),
     "isize_to_usize_expect": ("re", r"(let \w+: usize = )(\([^;]*?\))\.try_into\(\)\.expect\((\"[^\"]*\")\);", r"\1isize_to_usize_expect(\2, \3);", "TryFrom<isize> for usize has no vstd spec; shim = `x.try_into().expect(msg)`, panics iff x < 0"),
     "flat_map_extend": ("re", r"(?s)errors\s*\.extend\(\s*self\s*\.(\w+)\s*\.iter\(\)\s*\.flat_map\((.*?)\),?\s*\);", r"extend_flat_map(&mut errors, &self.\1, \2);", "Vec::extend(iter().flat_map(f)) -> shim with the same std body; `flat_map` applies f to each element in order and concatenates (assumed, R6)"),
     "map_collect": ("re", r"(?s)(\w+)\s*\.into_iter\(\)\s*\.map\((.*)\)\s*\.collect\(\)", r"vec_map_collect(\1, \2)", "v.into_iter().map(f).collect() -> shim with the same std body; `map` applies f to each element in order (assumed, R6)"),
@@ -99,6 +99,10 @@ REWRITES = {
     "str_len": ("re", r"\btext\.len\(\)", r"str_len(text)", "str::len -> shim (byte length)"),
     "string_replace_range_acc": ("re", r"acc\.text\.replace_range\(", r"string_replace_range(&mut acc.text, ", "String::replace_range has no vstd spec; shim with the std call"),
     "filter_map_collect": ("chain_fmc2", "filter_map", "filter_map_collect", "xs.iter().filter_map(f).collect() -> shim with the same std body (R8)"),
+    "partition_collect": ("chain_fmc2", "partition", "partition_collect", "xs.into_iter().partition(p) -> shim with the same std body (R8): the elements satisfying p, and the others, each in order"),
+    "change_text_len": ("re", r"\bchange\.text\.len\(\)", r"string_len(&change.text)", "String::len (byte length) — shim with the std call"),
+    "change_range_len": ("re", r"\bchange\.range\.len\(\)", r"range_len(&change.range)", "ExactSizeIterator::len for Range<usize> has no vstd spec"),
+    "relex_opaque": ("re", r"(?s)let reanalysis_text = .*?let new_tokens: Vec<_> = iterator\(.*?\.collect\(\);", r"let new_tokens: Vec<Token> = relex(new_text, reanalysis_start, &reusable_tokens);", "R16: the nom iterator that re-lexes the affected text (`&new_text[reanalysis_start..]`, `Span::new`, `iterator(..).map(shift).take_while(!reusable.contains).collect()`) is replaced by a call of an unspecified function; dropped: the slicing panic if reanalysis_start is not a character boundary, and everything about the re-lexed tokens"),
     "skip_while_collect": ("chain_fmc2", "skip_while", "skip_while_collect", "xs.into_iter().skip_while(p).collect() -> shim with the same std body (R8): the suffix starting at the first element that does not satisfy p"),
     "array_concat4": ("re", r"\[unaffected_head, new_tokens, unaffected_tail, vec!\[eof\]\]\.concat\(\)", "concat4(unaffected_head, new_tokens, unaffected_tail, eof)", "[a, b, c, vec![d]].concat() -> shim with the same std body: the four parts in order"),
     "find_map_first": ("chain_fm", "find_map", "find_map_first", "xs.iter().find_map(f) -> shim with the same std body (R8): the first Some result in order"),
@@ -348,7 +352,7 @@ def apply_rewrite(name, text):
         return text[:rs] + new + text[k:], {"rewrite": name, "why": why, "sites": [{"from": text[rs:k][:120], "to": new[:120]}]}
     if spec[0] == "chain_fmc2":
         _, method, fname, why = spec
-        by_value = method == "skip_while"
+        by_value = method in ("skip_while", "partition")
         pat = re.compile(r"\.\s*" + ("into_iter" if by_value else "iter") + r"\(\)\s*\.\s*" + method + r"\s*\(")
         out, sites, pos = text, [], 0
         while True:
@@ -366,7 +370,7 @@ def apply_rewrite(name, text):
                     depth -= 1
                 k += 1
             clo = out[m.end():k - 1].strip()
-            tail = re.match(r"\s*\.\s*collect\(\)", out[k:])
+            tail = re.match(r"\s*\.\s*collect\(\)" if method != "partition" else r"", out[k:])
             if not tail:
                 pos = k
                 continue
@@ -835,6 +839,17 @@ def emit_block(blk, rel, out_lines, meta):
     def payload_text(payload):
         return "\n".join(p[0] for p in payload)
 
+    # `$CLOSURE(|params| k/n)` in a payload line stands for the body expression of that closure as written in the code, so that a
+    # specification closure handed to an iterator shim says what the code says and the obligations are stated about *it*
+    def closure_body(m):
+        toks_c = rscan.tokenize(text)
+        found_c = rscan.find_closures(text, toks_c, 0, len(toks_c), rscan.norm(m.group(1)))
+        if len(found_c) != int(m.group(3)):
+            raise LostAnchor(f"{rel}: closure |{m.group(1)}| occurs {len(found_c)} times in {record['path']}, expected {m.group(3)}")
+        bo_c, bc_c, bf_c, bl_c, blk_c = found_c[int(m.group(2))]
+        return "(" + text[toks_c[bf_c].start:toks_c[bl_c].end] + ")"
+    for sub in blk.subs:
+        sub[2][:] = [(re.sub(r"\$CLOSURE\(\|(.*?)\|\s*(\d+)/(\d+)\)", closure_body, pl_), tl_) for pl_, tl_ in sub[2]]
     for order, (d, arg, payload, tl) in enumerate(blk.subs):
         if d in ("rewrite", "lift", "vis", "assume_body", "rename"):
             continue
